@@ -30,8 +30,10 @@ type Violation struct {
 }
 
 // Finding is one entry of known_findings.jsonl.
-//   {"status":"open","property":"C01","id":"...","match":{"k":"v",...},"what":"..."}
-//   {"status":"fixed","property":"C01","commit":"<sha>","what":"..."}
+//
+//	{"status":"open","property":"C01","id":"...","match":{"k":"v",...},"what":"..."}
+//	{"status":"fixed","property":"C01","commit":"<sha>","what":"..."}
+//
 // An open finding covers a violation iff the property is equal and every key of match is present
 // in the violation's attrs with an equal value. Fixed entries suppress nothing.
 type Finding struct {
@@ -113,17 +115,17 @@ type Run struct {
 	start    time.Time
 	deadline time.Time
 
-	mu         sync.Mutex
-	findings   []Finding
-	known      map[string]int // finding id -> count
-	violations []*Violation   // uncovered
-	classes    map[string]int // attr-class -> count of uncovered
-	Cov        map[string]any // coverage keys
+	mu          sync.Mutex
+	findings    []Finding
+	known       map[string]int // finding id -> count
+	violations  []*Violation   // uncovered
+	classes     map[string]int // attr-class -> count of uncovered
+	Cov         map[string]any // coverage keys
 	Assumptions []string
-	samples    []any
-	caps       []string
-	Exhaustive bool
-	counters   map[string]int64
+	samples     []any
+	caps        []string
+	Exhaustive  bool
+	counters    map[string]int64
 	// ReplayMode: no evidence file is written and known findings are not consulted.
 	ReplayMode bool
 }
@@ -194,6 +196,13 @@ func (r *Run) Violate(v *Violation) bool {
 	for i := range r.findings {
 		if r.findings[i].Covers(v) {
 			r.known[r.findings[i].ID]++
+			if fn := os.Getenv("VERIF_DUMP_KNOWN"); fn != "" && r.known[r.findings[i].ID] <= 5 {
+				if f, err := os.OpenFile(fn, os.O_APPEND|os.O_CREATE|os.O_WRONLY, 0o644); err == nil {
+					bs, _ := json.Marshal(map[string]any{"finding": r.findings[i].ID, "attrs": v.Attrs, "state": v.State, "input": v.Input, "observed": v.Observed})
+					f.Write(append(bs, '\n'))
+					f.Close()
+				}
+			}
 			return false
 		}
 	}
